@@ -29,6 +29,8 @@ let parse_hops a =
     | "ND" -> HND (nat_of_int (next_int a))
     | s -> failwith ("bad hist op " ^ s))
 
+let kind_code = function "T" -> 0 | "G" -> 1 | "Q" -> 2 | "S" -> 3 | "C" -> 4 | s -> failwith ("bad base kind " ^ s)
+
 let ver_z ver = z_of_int (match ver with "v1" -> 1 | "v2" -> 2 | _ -> 3)
 
 let hist_tags args =
@@ -41,7 +43,7 @@ let () =
   List.iter (fun prop ->
     reg prop "Hist" (fun ver args _obs ->
       let a = mk args in
-      let kind = (match next a with "T" -> 0 | _ -> 1) in
+      let kind = kind_code (next a) in
       let raw = next_list a next_z in
       let rep = next_list a next_z in
       let e = next_z a in
